@@ -528,10 +528,18 @@ impl Sys for CrashSys {
 
         // identity bookkeeping (before the model changes)
         let target: Option<u8> = match op {
-            RawOp::Write(n, _) | RawOp::WriteAt(n, ..) | RawOp::Truncate(n, _) | RawOp::TruncateWrite(n, ..) | RawOp::Rename(n, _) | RawOp::Remove(n) | RawOp::Create(n) => Some(*n),
+            RawOp::Write(n, _) | RawOp::WriteAt(n, ..) | RawOp::BatchWrite(n, ..) | RawOp::Truncate(n, _) | RawOp::TruncateWrite(n, ..) | RawOp::Rename(n, _) | RawOp::Remove(n) | RawOp::Create(n) => Some(*n),
             _ => None,
         };
         let in_place = match op {
+            RawOp::BatchWrite(n, o, _) => {
+                let at = self.inner.off(*n, *o);
+                let flushed = self
+                    .ids
+                    .get(n)
+                    .map_or(0, |id| self.s_done.iter().filter_map(|s| s.get(id)).map(|(_, b)| b.len()).max().unwrap_or(0));
+                at < flushed
+            }
             RawOp::WriteAt(n, o, sz) => {
                 let at = self.inner.off(*n, *o);
                 let flushed = self
